@@ -7,8 +7,18 @@ Core Lean only (linked into the driver).
 
 What is modelled: the *scene edits* and their queueing / de-duplication / ordering, i.e. which
 `ShapeRef`/`JunctionRef`/`ConnRef` objects exist, whether an obstacle is active (in
-`Router::m_obstacles`), its `polygon()` / `position()`, the connector endpoint positions, the
-pending `actionList`, and the `m_consolidate_actions` flag.
+`Router::m_obstacles`), its `polygon()` / `position()`, the connector ends (`CEnd`: a free point, or
+`ConnEnd(shape, pinClassId)` / `ConnEnd(junction)` = attached to a pin class of an obstacle), the
+pending `actionList`, and the `m_consolidate_actions` flag.  Connector ends attached to pins: the
+consolidation rule of `ActionInfo::addConnEndUpdate` with its `isConnPinMoveUpdate` flag as coded, and
+the internal "pin moved with its shape" updates that the first loop of `processActions` queues through
+`ShapeRef::moveAttachedConns` / `JunctionRef::moveAttachedConns` for every connector end attached to a
+moved obstacle (`genPinMoves`).  NOT represented: the transient state between the first and the last loop
+in which `Obstacle::makeInactive` has turned the attached ends into manual points (the last loop
+re-attaches every one of them: by the pin-move update or by the user's queued change); which pins exist
+on a shape and where they are (Driver/C06 resolves a pin end to `pinPosition` of the model polygon).
+An end left attached to a DELETED obstacle becomes a manual point at a routing-dependent position in the
+C++; such transactions are outside `legal` (`attachOk`).
 What is NOT modelled: visibility graphs, `contains`, rerouting (audited per run by Driver/C06).
 
 Shapes and junctions are both `Obstacle`s in the C++ and the junction entry points are literal
@@ -29,8 +39,15 @@ Code facts mirrored here (checked against the source, each has a line reference)
   `shape->polygon()`; translated; then the absolute overload with `first_move=false`          (router.cpp:319-339)
 * `deleteShape`: asserts no queued `ShapeAdd`; erases a queued `ShapeMove`; pushes `ShapeRemove`
   unless already queued                                                                        (router.cpp:281-309)
-* `modifyConnector(conn, type, connEnd)`: push `ConnChange` with one update, or
-  `addConnEndUpdate`: overwrite the update for the same end, else append                       (router.cpp:176-199, actioninfo.cpp:125-162)
+* `modifyConnector(conn, type, connEnd, connPinMoveUpdate)`: push `ConnChange` with one update, or
+  `addConnEndUpdate`: a queued update for the same end is overwritten by a user change and LEFT ALONE by a
+  pin-move update (`isConnPinMoveUpdate`); else append                                         (router.cpp:187-211, actioninfo.cpp:125-162)
+* `ShapeRef::moveAttachedConns` / `JunctionRef::moveAttachedConns` (first loop of `processActions`, Move
+  actions only): `modifyConnector(conn, endpointType, *connEnd, true)` for every `ConnEnd` in
+  `m_following_conns`; the new `ConnChange` entries go to the END of the list being traversed and are
+  skipped by the first two loops, processed by the last                                        (shape.cpp:57-76, junction.cpp:170-192, router.cpp:521-532)
+* `new ShapeConnectionPin(shape, …)`: `Router::modifyConnectionPin` queues a `ConnectionPinChange` (no
+  scene edit, not modelled) and ends with the `if (!m_consolidate_actions) processTransaction()` tail
 * every entry point ends with `if (!m_consolidate_actions) processTransaction();`
 * `processTransaction`: returns false (does nothing) if the list is empty (no hyperedge
   reroutes, no settings change)                                                                (router.cpp:640-656)
@@ -56,6 +73,22 @@ inductive End where
   | src | tar
   deriving Repr, DecidableEq, Inhabited
 
+/-- a `ConnEnd`: a free point (`anchor = 0`; `x y` = the point), or `ConnEnd(shape, pinClassId)` /
+    `ConnEnd(junction)` (`anchor` = id of the obstacle ≠ 0, `cls` = `m_connection_pin_class_id`; `x y` = 0:
+    where the pin is follows from the obstacle's polygon, it is not part of the end) -/
+structure CEnd where
+  x : Rat
+  y : Rat
+  anchor : Nat := 0
+  cls : Nat := 0
+  deriving Repr, DecidableEq, Inhabited
+
+/-- `ConnEnd(Point)` -/
+def CEnd.pt (p : Pt) : CEnd := { x := p.x, y := p.y }
+/-- `ConnEnd(ShapeRef*, classId)` / `ConnEnd(JunctionRef*)` -/
+def CEnd.pin (anchor cls : Nat) : CEnd := { x := 0, y := 0, anchor := anchor, cls := cls }
+def CEnd.isPin (e : CEnd) : Bool := e.anchor != 0
+
 /-- `enum ActionType` restricted to the values the modelled entry points create; for obstacles the
     shape/junction distinction is the `isJ` flag of the action -/
 inductive Kind where
@@ -70,7 +103,7 @@ structure Action where
   geom : Poly := []
   firstMove : Bool := false
   /-- `ConnUpdateList conns` -/
-  conns : List (End × Pt) := []
+  conns : List (End × CEnd) := []
   deriving Repr, DecidableEq, Inhabited
 
 /-- position of the action's type in `enum ActionType { ShapeMove, ShapeAdd, ShapeRemove,
@@ -100,8 +133,8 @@ structure Obst where
 /-- a `ConnRef` object; an end is `none` while `m_src_vert` / `m_dst_vert` is still null -/
 structure Conn where
   id : Nat
-  src : Option Pt := none
-  dst : Option Pt := none
+  src : Option CEnd := none
+  dst : Option CEnd := none
   deriving Repr, DecidableEq, Inhabited
 
 structure Scene where
@@ -131,8 +164,12 @@ inductive Op where
   | delete (j : Bool) (id : Nat)
   /-- `new ConnRef(router, id)`: queues nothing -/
   | newConn (id : Nat)
-  /-- `conn->setEndpoint(which, ConnEnd(p))` (= `setSourceEndpoint` / `setDestEndpoint`) -/
-  | setEndpoint (conn : Nat) (which : End) (p : Pt)
+  /-- `conn->setEndpoint(which, connEnd)` (= `setSourceEndpoint` / `setDestEndpoint`) with
+      `connEnd` = `ConnEnd(p)`, `ConnEnd(shape, classId)` or `ConnEnd(junction)` -/
+  | setEndpoint (conn : Nat) (which : End) (p : CEnd)
+  /-- `new ShapeConnectionPin(shape, classId, xOffset, yOffset, proportional, 0, dirs)`: no scene edit;
+      reaches the `processTransaction` tail of `Router::modifyConnectionPin` -/
+  | newPin (obst cls : Nat) (xo yo : Rat)
   | setTransactionUse (b : Bool)
   | processTransaction
   deriving Repr, DecidableEq, Inhabited
@@ -163,13 +200,18 @@ def eraseObst (sc : Scene) (id : Nat) : Scene :=
 def mapConn (sc : Scene) (id : Nat) (f : Conn → Conn) : Scene :=
   { sc with conns := sc.conns.map fun c => if c.id == id then f c else c }
 
-def Conn.setEnd (c : Conn) (e : End) (p : Pt) : Conn :=
+def Conn.setEnd (c : Conn) (e : End) (p : CEnd) : Conn :=
   match e with
   | .src => { c with src := some p }
   | .tar => { c with dst := some p }
 
 /-- all queued updates of one `ConnChange` applied to a connector, in list order -/
-def Conn.applyUpdates (c : Conn) (us : List (End × Pt)) : Conn :=
+def Conn.getEnd (c : Conn) (e : End) : Option CEnd :=
+  match e with
+  | .src => c.src
+  | .tar => c.dst
+
+def Conn.applyUpdates (c : Conn) (us : List (End × CEnd)) : Conn :=
   us.foldl (fun c u => c.setEnd u.1 u.2) c
 
 /-- replace the first element satisfying `p` (the `found->… = …` updates through a `find` iterator) -/
@@ -182,9 +224,21 @@ def eraseFirst {α} (p : α → Bool) : List α → List α
   | [] => []
   | a :: l => if p a then l else a :: eraseFirst p l
 
-/-- `ActionInfo::addConnEndUpdate(type, connEnd, isConnPinMoveUpdate = false)` -/
-def addConnEndUpdate (us : List (End × Pt)) (e : End) (p : Pt) : List (End × Pt) :=
-  if us.any (·.1 == e) then updFirst (·.1 == e) (fun _ => (e, p)) us else us ++ [(e, p)]
+/-- `ActionInfo::addConnEndUpdate(type, connEnd, isConnPinMoveUpdate)`: a queued change to the same end
+    is overwritten by a user change, and left alone by a pin-move update ("leave the user created update
+    that was found, since it may be moving the connection to connect to a different shape/pin");
+    no queued change to that end: append -/
+def addConnEndUpdate (us : List (End × CEnd)) (e : End) (p : CEnd) (isPinMove : Bool) : List (End × CEnd) :=
+  if us.any (·.1 == e) then
+    if !isPinMove then updFirst (·.1 == e) (fun _ => (e, p)) us else us
+  else us ++ [(e, p)]
+
+/-- `Router::modifyConnector(conn, type, connEnd, connPinMoveUpdate)` without its `processTransaction` tail -/
+def modifyConnector (q : List Action) (c : Nat) (e : End) (p : CEnd) (isPinMove : Bool) : List Action :=
+  if hasAct q .connChange c then
+    updFirst (fun a => a.kind == .connChange && a.id == c)
+      (fun a => { a with conns := addConnEndUpdate a.conns e p isPinMove }) q
+  else q ++ [{ kind := .connChange, id := c, conns := [(e, p)] }]
 
 /-! ### the entry points: queueing part. The `Bool` tells whether control reaches the
     `if (!m_consolidate_actions) processTransaction();` tail. -/
@@ -220,12 +274,8 @@ def enqueue (st : State) : Op → State × Bool
     ({ st with queue := q }, true)
   | .newConn id =>
     ({ st with scene := { st.scene with conns := st.scene.conns ++ [{ id := id }] } }, false)
-  | .setEndpoint c e p =>
-    let q := if hasAct st.queue .connChange c then
-        updFirst (fun a => a.kind == .connChange && a.id == c)
-          (fun a => { a with conns := addConnEndUpdate a.conns e p }) st.queue
-      else st.queue ++ [{ kind := .connChange, id := c, conns := [(e, p)] }]
-    ({ st with queue := q }, true)
+  | .setEndpoint c e p => ({ st with queue := modifyConnector st.queue c e p false }, true)
+  | .newPin _ _ _ _ => (st, true)
   | .setTransactionUse b => ({ st with useTxn := b }, false)
   | .processTransaction => (st, false)
 
@@ -263,9 +313,31 @@ def pass3One (sc : Scene) (a : Action) : Scene :=
 def runPasses (sc : Scene) (q : List Action) : Scene :=
   q.foldl pass3One (q.foldl pass2One (q.foldl pass1One sc))
 
-/-- `Router::processActions` -/
+/-! ### pin-move updates generated inside `processActions` -/
+
+/-- `Obstacle::m_following_conns` of obstacle `m`: the connector ends currently attached to one of its
+    pins, as (connector, end, copy of the `ConnEnd`). (A `std::set<ConnEnd *>`: the C++ visits them in
+    address order; the order only permutes queue entries, `pin_moves_preserve_view`.) -/
+def attachedEnds (sc : Scene) (m : Nat) : List (Nat × End × CEnd) :=
+  sc.conns.flatMap fun c =>
+    (match c.src with | some s => if s.anchor == m then [(c.id, End.src, s)] else [] | none => []) ++
+    (match c.dst with | some d => if d.anchor == m then [(c.id, End.tar, d)] else [] | none => [])
+
+/-- `ShapeRef::moveAttachedConns` / `JunctionRef::moveAttachedConns`:
+    `modifyConnector(connEnd->m_conn_ref, connEnd->endpointType(), *connEnd, connPinUpdate = true)` -/
+def moveAttachedConns (sc : Scene) (q : List Action) (m : Nat) : List Action :=
+  (attachedEnds sc m).foldl (fun q t => modifyConnector q t.1 t.2.1 t.2.2 true) q
+
+/-- the action list as the first loop of `processActions` leaves it: for every Move action, in list
+    order, the pin-move updates of the obstacle's attached connector ends are merged into / appended to
+    the list that is being traversed -/
+def genPinMoves (sc : Scene) (q : List Action) : List Action :=
+  q.foldl (fun acc a => if a.kind == .move then moveAttachedConns sc acc a.id else acc) q
+
+/-- `Router::processActions`: sort; the first loop queues the pin-move updates (`genPinMoves`; the entries
+    it appends are `ConnChange`s, which the first two loops skip); the three loops run over that list -/
 def processActions (st : State) : State :=
-  { st with scene := runPasses st.scene (sortActions st.queue), queue := [] }
+  { st with scene := runPasses st.scene (genPinMoves st.scene (sortActions st.queue)), queue := [] }
 
 /-- `Router::processTransaction` (no hyperedge reroutes registered, no settings change pending,
     `SimpleRouting == false`) -/
@@ -302,15 +374,20 @@ def obstIs (st : State) (j : Bool) (id : Nat) : Bool :=
       (`setNewPoly` COLA_ASSERT obstacle.cpp:101); junctions have no `first_move`;
     * delete: no `Add` queued (COLA_ASSERT router.cpp:286) — "no add+delete of one shape in one
       transaction" — and not already queued for deletion;
-    * setEndpoint: the connector exists. -/
-def legal (st : State) : Op → Bool
+    * setEndpoint: the connector exists; a pin end names an existing obstacle that is not queued for
+      deletion ("You should not use the shape reference again after [deleteShape]");
+    * newPin: the shape exists and is not queued for deletion. -/
+def legalCall (st : State) : Op → Bool
   | .addObst j id g => id != 0 && !idUsed st id && (if j then g.length == 1 else g.length ≥ 3)
   | .moveAbs j id g fm =>
     obstIs st j id && !hasAct st.queue .remove id && (relBaseLen st id == g.length) && (!j || !fm)
   | .moveRel j id _ _ => obstIs st j id && !hasAct st.queue .remove id
   | .delete j id => obstIs st j id && !hasAct st.queue .add id && !hasAct st.queue .remove id
   | .newConn id => id != 0 && !idUsed st id
-  | .setEndpoint c _ _ => (findConn st.scene c).isSome
+  | .setEndpoint c _ p =>
+    (findConn st.scene c).isSome &&
+      (p.anchor == 0 || ((findObst st.scene p.anchor).isSome && !hasAct st.queue .remove p.anchor))
+  | .newPin o _ _ _ => obstIs st false o && !hasAct st.queue .remove o
   | .setTransactionUse _ => true
   | .processTransaction => true
 where
@@ -318,6 +395,33 @@ where
     match findObst st.scene id with
     | some o => o.geom.length
     | none => 0
+
+/-- the end a connector will have once the queue is processed: the queued user change, else its current end -/
+def effEnd (st : State) (c : Conn) (e : End) : Option CEnd :=
+  match findAct st.queue .connChange c.id with
+  | some a => (c.applyUpdates a.conns).getEnd e
+  | none => c.getEnd e
+
+/-- no connector end is left attached to an obstacle that the pending transaction deletes (in the C++
+    `Obstacle::makeInactive` turns such an end into a manual point at `ConnEnd::position()`, which depends on
+    the pin the last routing chose: outside this model) -/
+def attachOk (st : State) : Bool :=
+  st.scene.conns.all fun c => [End.src, End.tar].all fun e =>
+    match effEnd st c e with
+    | some p => p.anchor == 0 || !hasAct st.queue .remove p.anchor
+    | none => true
+
+/-- does the call run `processActions` on a non-trivial state: `processTransaction()` itself, or any call
+    reaching its `if (!m_consolidate_actions) processTransaction()` tail with transactions off -/
+def processes (st : State) (op : Op) : Bool :=
+  match op with
+  | .processTransaction => true
+  | _ => !(enqueue st op).1.useTxn && (enqueue st op).2
+
+/-- documented preconditions of the call (`legalCall`), and if the call processes the queue: no connector end
+    stays attached to an obstacle deleted by that transaction (`attachOk`) -/
+def legal (st : State) (op : Op) : Bool :=
+  legalCall st op && (!processes st op || attachOk (enqueue st op).1)
 
 /-- every call of the history is legal in the state it is made in -/
 def legalRun (st : State) : List Op → Bool
